@@ -5,6 +5,7 @@ in the list was introduced after the rules were written (an extracted helper, a 
 specification can mention it, and it is inlined / instantiated instead of being kept as an uninterpreted call.
 Regenerate after the reference tree changes:  tools/gen_reference_names.py [repo]
 """
+import ast
 import json
 import os
 import sys
@@ -16,6 +17,8 @@ prog = Program(sys.argv[1] if len(sys.argv) > 1 else "/repo")
 out = {
     "functions": sorted({fi.name for fi in prog.functions.values()}),
     "classes": sorted({ci.name for ci in prog.classes.values()}),
+    "globals": sorted({t.id for m in prog.modules.values() for st in m.tree.body if isinstance(st, (ast.Assign, ast.AnnAssign))
+                       for t in (st.targets if isinstance(st, ast.Assign) else [st.target]) if isinstance(t, ast.Name)}),
 }
 path = os.path.join(os.path.dirname(os.path.dirname(os.path.abspath(__file__))), "pcstatic", "reference_names.json")
 json.dump(out, open(path, "w"), indent=0)
